@@ -55,7 +55,15 @@ func (s *State) Get(name, sort string) Term {
 		}
 		cn := fmt.Sprintf("%s!h%d", name, g.id)
 		s.vc.declOnce(cn, sort)
-		t = Term{cn, sort}
+		t = Term{smtName(cn), sort}
+		if name == "clk" {
+			// the allocation clock only moves forward
+			if g.prev != nil {
+				s.vc.assume(tLe(g.prev.Get("clk", SInt), t))
+			}
+			break
+		}
+		s.vc.assume(s.vc.sess.te.refBound(name, t, s.Get("clk", SInt)))
 		if len(g.preserve) > 0 && g.prev != nil && isArraySortIdx(sort, SInt) {
 			pv := g.prev.Get(name, sort)
 			for _, r := range g.preserve {
@@ -111,8 +119,14 @@ func (s *State) Havoc(name, sort string) Term {
 	s.vc.genCounter++
 	cn := fmt.Sprintf("%s!v%d", name, s.vc.genCounter)
 	s.vc.declOnce(cn, sort)
-	t := Term{cn, sort}
+	t := Term{smtName(cn), sort}
+	if name == "clk" {
+		s.vc.assume(tLe(s.Get("clk", SInt), t))
+		s.h[name] = t
+		return t
+	}
 	s.h[name] = t
+	s.vc.assume(s.vc.sess.te.refBound(name, t, s.Get("clk", SInt)))
 	return t
 }
 
